@@ -24,7 +24,7 @@ var c10Ops = []c10Op{
 	{"*", 7}, {"×", 7}, {"/", 7}, {"÷", 7}, {"//", 7}, {"%", 7},
 }
 
-var c10Shapes = []string{"%s", "`2`", "%s.b", "%s[0]", "%s[*].b", "(%s)", "%s.*", "%s[?@]", "%s[1:]", "%s[]", "%s[*]", "%s[].b", "abs(%s)", "[%s][0]"}
+var c10Shapes = []string{"%s", "`2`", "%s.b", "%s[0]", "%s[*].b", "(%s)", "%s.*", "%s[?@]", "%s[1:]", "%s[]", "%s[*]", "%s[].b", "abs(%s)", "[%s][0]", "[0]", "[1:]", "[-1]", "@", "[*]", "*"}
 var c10Prefixes = []string{"", "!", "-", "−", "+"}
 
 // c10Paren fully parenthesises operands[0] ops[0] operands[1] ... by the
@@ -133,6 +133,16 @@ func c10Cases(thorough bool) []c10Case {
 			{"a " + o + " 'x' " + o + " b", "(a " + o + " 'x') " + o + " b"},
 		} {
 			out = append(out, c10Case{Kind: "construct", Flat: f[0], Spec: f[1], Ops: o + " in " + strings.NewReplacer("a", "", "b", "", "c", "", o, "").Replace(f[0])})
+		}
+		// a bracket binds tighter than a unary operator: !a[0] is !(a[0])
+		if o1.Text == "|" {
+			for _, pf := range c10Prefixes[1:] {
+				for _, br := range []string{"[0]", "[-1]", "[1:]", "[*]", "[::-1]", "[0][0]"} {
+					out = append(out, c10Case{Kind: "construct", Flat: pf + "a" + br, Spec: pf + "(a" + br + ")", Ops: pf + " before " + br})
+					out = append(out, c10Case{Kind: "construct", Flat: pf + "a" + br + " && b", Spec: "(" + pf + "(a" + br + ")) && b", Ops: pf + " before " + br + " &&"})
+					out = append(out, c10Case{Kind: "construct", Flat: "[" + pf + "a" + br + ", " + pf + "b" + br + "]", Spec: "[" + pf + "(a" + br + "), " + pf + "(b" + br + ")]", Ops: pf + " before " + br + " in list"})
+				}
+			}
 		}
 		// unary operators against every binary operator, on both sides
 		for _, pf := range c10Prefixes[1:] {
